@@ -266,7 +266,7 @@ Proof.
                /\ ref_step lower (map its Cs) x (fst (step lower w x)) = (fst (step lower w x), map its Cs')).
   { intros A m f Hs Hns Est Hsim. rewrite Est. rewrite ref_step_not_set by exact Hns.
     eapply run_on_sim; eauto. }
-  destruct x as [o k v|o k|o k|o k|o|o|o k|o k|o k r|o k r|o|o|o|o]; cbn [op_target] in Hd, HC.
+  destruct x as [o k v|o k|o k|o k|o|o|o k|o k|o k r|o k r|o sk|o|o|o]; cbn [op_target] in Hd, HC.
   - (* OSet *)
     destruct (validate_input v) as [[]|e] eqn:Ev.
     + destruct (d_setitem_ok lower _ _ _ k v RC Ev) as [h' [d' [C' [E [R' [S P]]]]]].
@@ -289,7 +289,7 @@ Proof.
   - apply (Hsimple _ (d_order_last lower k) (fun _ => RNone)); try reflexivity; try discriminate. now apply sim_last.
   - apply (Hsimple _ (d_order_before lower k r) (fun _ => RNone)); try reflexivity; try discriminate. now apply sim_before.
   - apply (Hsimple _ (d_order_after lower k r) (fun _ => RNone)); try reflexivity; try discriminate. now apply sim_after.
-  - apply (Hsimple _ (d_sort_fields lower) (fun _ => RNone)); try reflexivity; try discriminate. now apply sim_sort.
+  - apply (Hsimple _ (d_sort_fields lower sk) (fun _ => RNone)); try reflexivity; try discriminate. now apply sim_sort.
   - (* OCopy *)
     destruct (d_copy_spec lower _ _ _ RC) as [h' [d' [C' [E [R' [S [F I]]]]]]].
     cbn [step]. rewrite Hd. unfold new_obj. rewrite E. cbn [fst snd].
@@ -319,7 +319,7 @@ Lemma ref_step_hint w Cs x :
   W_rep w Cs ->
   snd (ref_step lower (map its Cs) x (fst (step lower w x))) = spec_next (map its Cs) x.
 Proof.
-  intros R. unfold spec_next. destruct x as [o k v|o k|o k|o k|o|o|o k|o k|o k r|o k r|o|o|o|o];
+  intros R. unfold spec_next. destruct x as [o k v|o k|o k|o k|o|o|o k|o k|o k r|o k r|o sk|o|o|o];
     try reflexivity.
   destruct (nth_error (w_objs w) o) as [d|] eqn:Hd.
   - destruct (W_rep_nth _ _ _ _ R Hd) as [C [HC RC]].
@@ -515,6 +515,18 @@ Proof.
   destruct (Hsplit _ _ Hh) as [Hh1 Hrp].
   destruct (run_sim xs w0 Cs R Hh1) as [Cs' [R' S']]. rewrite <- S' in Hrp.
   eapply failed_step_unchanged; eauto.
+Qed.
+
+(** what the reference does for sort_fields(key): the stable sort by key value *)
+Theorem sort_reference_stable o sk (d : items) :
+  let key := fun p : str * str => sort_key lower sk (fst p) in
+  let d' := snd (s_step1 lower d (OSort o sk)) in
+  Permutation d' d
+  /\ Sorted.StronglySorted (fun x y => zs_leb (key x) (key y) = true) d'
+  /\ forall k, filter (fun y => zs_eqb (key y) k) d' = filter (fun y => zs_eqb (key y) k) d.
+Proof.
+  cbn [s_step1 snd]. split; [apply sort_by_perm|]. split; [apply sort_by_sorted|].
+  intros k. apply sort_by_stable.
 Qed.
 
 End WithLower.
